@@ -8,7 +8,6 @@ from collections import Counter
 import random
 import shutil
 import struct
-import zlib
 
 from .. import cgit
 from ..core import HarnessError, run_hypothesis
@@ -109,14 +108,21 @@ class Judge:
         self.failed = False
         self.any_failed = False
 
-    def fail(self, stage, kind, msg, hashless=False):
+    def fail(self, stage, kind, msg, hashless=False, soft=False):
+        """``soft``: the rest of the case is still meaningful; if the bucket is excluded as a known finding the
+        later stages (C git) run as if nothing had happened."""
+        new = self._report(stage, kind, msg, hashless)
+        if soft and not new:
+            return
         self.failed = True
         self.any_failed = True
+
+    def _report(self, stage, kind, msg, hashless):
         # the readers are the same whoever wrote the pair: read-stage buckets do not carry the check name
         tag = ("read" + ("" if hashless else self.tag[len(self.check):])) if stage.startswith("read") else self.tag + ":" + stage
         if stage.startswith("read"):
             tag += stage[4:]
-        self.ctx.fail(f"C02:{tag}:{kind}", msg, self.check, self.case)
+        return self.ctx.fail(f"C02:{tag}:{kind}", msg, self.check, self.case)
 
     def exc(self, stage, e, what):
         self.fail(stage, f"{type(e).__name__}@{_exc_site(e)}", f"{what} raised {type(e).__name__}: {str(e)[:300]}")
@@ -285,7 +291,6 @@ def dulwich_read(j, base, expected, entries, idxv, seed, stage="read"):
 
 def _dulwich_read(j, p, expected, entries, idxv, seed, stage, idx_raw=None):
     hl = j.hl
-    fmt = _fmt(hl)
     n = len(expected)
     names = sorted(expected)
     rnd = random.Random(seed)
@@ -320,7 +325,7 @@ def _dulwich_read(j, p, expected, entries, idxv, seed, stage, idx_raw=None):
             if hl == 32 and expected[name][0] == 2 and "/objects.py" in _exc_file(o):
                 # one root cause whatever parser trips over it (Rust or Python parse_tree, different exception types)
                 j.fail(stage + ":getitem", "sha256-tree-parsed-with-sha1-id-length",
-                       f"pack[{name.hex()}] (a tree in a SHA-256 pack) raised {type(o).__name__}: {str(o)[:200]}")
+                       f"pack[{name.hex()}] (a tree in a SHA-256 pack) raised {type(o).__name__}: {str(o)[:200]}", soft=True)
                 continue
             return j.exc(stage + ":getitem", o, f"pack[{name.hex()}]")
         ok, v = _catch(lambda: (o.type_num, o.as_raw_string()))
@@ -347,7 +352,7 @@ def _dulwich_read(j, p, expected, entries, idxv, seed, stage, idx_raw=None):
             ok, v = _catch(lambda: junk in p)
             if not ok or v:
                 j.fail(stage + ":contains-absent", "lookup-reads-one-entry-past-the-name-table",
-                       f"{junk.hex()} (the {hl} bytes after the name table of the idx) in pack -> {v!r}"[:400], hashless=True)
+                       f"{junk.hex()} (the {hl} bytes after the name table of the idx) in pack -> {v!r}"[:400], hashless=True, soft=True)
 
     # names by iteration
     ok, v = _catch(lambda: list(p))
@@ -952,10 +957,10 @@ def _git_pack(ctx, case, objs, subset=None):
     hl = case["hl"]
     repo = _git_source(ctx, hl, objs)
     g = case["git"]
-    args = ["pack-objects", "--stdout", "-q", f"--depth={g['depth']}", f"--window={g['window']}"]
+    # --threads=1: the multi-threaded delta search makes the output depend on timing (same seed must give the same run)
+    args = ["pack-objects", "--stdout", "-q", "--threads=1", f"--depth={g['depth']}", f"--window={g['window']}"]
     if g["ofs"]:
         args.append("--delta-base-offset")
-    by_spec = {o.spec_index: o for o in objs}
     mat = gen.materialise(case["specs"], hl)
     thin = g.get("thin")
     if thin:
@@ -1020,7 +1025,6 @@ def run_gitpack(ctx, case, check="gitpack"):
     if ext is not None and reader != "add_thin_pack":
         reader = "add_thin_pack"
     d = ctx.scratch.new("gp")
-    st = gst
     labels = [f"{check}:reader={reader}"]
     if ext:
         labels.append("thin-pack-with-external-bases")
@@ -1497,8 +1501,20 @@ def _part(ctx, item):
     # quick tier: no shrinking (a deltifying case costs up to seconds); the smallest failing case per bucket is kept
     import time  # evidence only (where the budget goes); never used by an oracle
 
+    from hypothesis.errors import FlakyFailure
+
+    from ..core import Violation
+
     t = time.time()
-    run_hypothesis(ctx, strat(), lambda c, case: fn(c, case), max_examples=n, shrink=ctx.thorough)
+    try:
+        run_hypothesis(ctx, strat(), lambda c, case: fn(c, case), max_examples=n, shrink=ctx.thorough)
+    except FlakyFailure as e:
+        # an oracle failure that did not repeat when Hypothesis re-ran the same case: still an observed failure
+        vs = [x for x in e.exceptions if isinstance(x, Violation)]
+        if not vs:
+            raise
+        for v in vs:
+            ctx.record_violation(v.bucket, "(did not repeat on immediate re-execution) " + v.message, v.check, v.case)
     t = time.time() - t
     ctx.extra[f"cpu_s_{name}"] = round(ctx.extra.get(f"cpu_s_{name}", 0) + t, 1)
     ctx.extra.setdefault("slowest_shard_s", Counter())[f"{name}@{ctx.shard}"] = round(t, 1)
